@@ -13,7 +13,7 @@ RULE = ("binning: images and stacks with shapes divisible by n, n in 1..5, integ
         "and encircled-energy curve: non-negative images of even and odd size 4..14 (1e-12); non-trivial = non-constant output; distinct = "
         "distinct (function, data)")
 TRUSTED = ["scipy RectBivariateSpline(s=0) is an oracle: interpolates its nodes, is linear in the data, reproduces polynomials of degree <= k "
-           "(contract; tested numerically)", "numpy.interp / argmin of encircled_energy are not modelled (falsifier only)",
+           "(contract; tested numerically)", 
            "model coq/model/Interp.v hand-written; circle from model/Pupil.v (C14)"]
 ASSUMPTIONS = ["`zoom` (interp2d) is unusable with the installed SciPy (known finding); zoom clauses are checked on zoom_rbs"]
 IMPORTS = ["AOV.base.Cplx", "AOV.model.Pupil", "AOV.model.Interp"]
@@ -97,6 +97,19 @@ def correspond(ctx):
             cases.append("okl %s 1 (flat_map (fun q => [fst q; snd q]) (ee_curve F %s %s %s %s)) %s"
                          % (hexf(1e-12), flist2(d), hexf(float(dim)), hexf(float(dim)), flist(rads), flist(exp)))
             meta.append({"fn": "encircled_energy curve", "N": N, "nontrivial": True})
+            # what the function actually returns: the curve resampled by numpy.interp on linspace(0, dim, 4 dim) ...
+            exp2 = [v for pair in zip(xs, ee) for v in pair]
+            cases.append("okl %s 1 (flat_map (fun q => [fst q; snd q]) (ee_interp F %s %s %s %s)) %s"
+                         % (hexf(1e-11), flist2(d), hexf(float(dim)), hexf(float(dim)), flist(rads), flist(exp2)))
+            meta.append({"fn": "encircled_energy returned curve", "N": N, "nontrivial": True})
+            # ... and the diameter at which it is closest to the requested fraction (skipped on a numerical tie of the two best samples)
+            fr = rng.uniform(0.1, 0.9)
+            gap = numpy.sort(numpy.abs(ee - fr))
+            if gap[1] - gap[0] > 1e-9:
+                dia = psf.encircled_energy(d, fraction=fr)
+                cases.append("okl %s 1 [ee_diameter F %s %s %s %s %s] [%s]"
+                             % (hexf(1e-12), flist2(d), hexf(float(dim)), hexf(float(dim)), flist(rads), hexf(fr), hexf(float(dia))))
+                meta.append({"fn": "encircled_energy diameter", "N": N, "fraction": fr, "nontrivial": True})
     nev, failing, errors = run_cases(PID, IMPORTS, PRELUDE, cases, per_file=30)
     hist = {}
     for m in meta:
